@@ -568,7 +568,7 @@ func (w *c12Wire) RoundTrip(req *http.Request) (*http.Response, error) {
 	}
 	w.body = b
 	return &http.Response{StatusCode: 200, Status: "200 OK", Proto: "HTTP/1.1", ProtoMajor: 1, ProtoMinor: 1,
-		Header: http.Header{"Content-Type": {"application/octet-stream"}}, Body: b, ContentLength: -1, Request: req}, nil
+		Header: http.Header{"Content-Type": {c12RespType(p)}}, Body: b, ContentLength: -1, Request: req}, nil
 }
 
 // c12RealServer answers like the plan says, over a real socket.
@@ -699,6 +699,13 @@ func c12ExecF(in []string) []string {
 	}
 	rtr.Context = rtCtx
 	rtr.Debug = false
+	if c12Dumped(p) {
+		// Debug with a printable response type: Submit dumps the response (reading the whole body) before
+		// the reader sees it; for a reader that reads to the end anyway the call looks the same from outside
+		rtr.SetLogger(c12NoLog{})
+		rtr.Debug = true
+		rtr.Consumers["text/plain"] = runtime.ByteStreamConsumer()
+	}
 	if p.reuse {
 		rtr.EnableConnectionReuse()
 	}
@@ -954,7 +961,7 @@ func c12Origin(err error) string {
 		return "gc"
 	case errors.Is(err, errC12Reader):
 		return "gr"
-	case strings.Contains(msg, "c12-read"):
+	case strings.Contains(msg, "c12-read"), strings.Contains(msg, "c12-body-error"):
 		return "gb"
 	case errors.Is(err, errC12Src), errors.Is(err, io.ErrUnexpectedEOF) && !strings.Contains(msg, "c12-"):
 		return "gs"
@@ -1289,3 +1296,23 @@ func c12Gen(r *proto.Rng, n int, tier string, emit func(in ...string)) {
 		}
 	}
 }
+
+// c12Dumped: the plans run with Runtime.Debug on and a response type that Submit dumps with its body — in-process
+// wire, a response that ends (EOF or error) without stalling, a reader that reads to the end, no cancellation.
+func c12Dumped(p *c12Plan) bool {
+	// (and no request body: with Debug on Submit also dumps the request, reading its body before the transport does)
+	return !p.real && p.readAll && !p.respStall && (p.respTerm == 'e' || p.respTerm == 'x') && p.cancel == 'n' &&
+		p.payload == 'n' && p.form == 0 && len(p.files) == 0 && p.respChunks%2 == 1
+}
+
+func c12RespType(p *c12Plan) string {
+	if c12Dumped(p) {
+		return "text/plain"
+	}
+	return "application/octet-stream"
+}
+
+type c12NoLog struct{}
+
+func (c12NoLog) Printf(string, ...interface{}) {}
+func (c12NoLog) Debugf(string, ...interface{}) {}
